@@ -1,4 +1,4 @@
-(* GENEQ lemma=gen_CSRRC_init_eq requires=gen_CSRRC_init_rd,gen_CSRRC_init_csr,gen_CSRRC_init_rs1 properties=C01,C02 *)
+(* GENEQ lemma=gen_CSRRC_init_eq requires=gen_CSRRC_init_rd,gen_CSRRC_init_csr,gen_CSRRC_init_rs1 properties=C01 *)
 From ArchSimGenEq Require Import GenEqTac.
 From ArchSim Require Import Model.RV Model.RVSplit.
 From ArchSimGen Require Import GenRVTypes GenRV.
